@@ -857,6 +857,74 @@ def _check_wiring(run: Run, m: Module, qual: str, reader: str, idx: int, sinks, 
         raise AnalysisError(f"{qual}: expected at least {need} call(s) `doc, receipts = {reader}(...)`, found {found}")
 
 
+def check_position_stamping(run: Run) -> None:
+    """R07.7: a receipt filed without its position gets it before anything else is filed"""
+    from ..cfg import CFG
+
+    run.rule("R07.7", "a receipt that its producer files without a position (line 0 / column 0: the brace-for-angle repair_candidate of _match_unicode_identifier) is stamped with the token's line / column by a loop over every entry appended since the producer was called (`repairs[<length before>:]`), or - if only the newest entry is looked at - before any other receipt can be appended in between", 1)
+    lx = run.project.mod("core.lexer")
+    fi = lx.func("tokenize")
+    cfg = CFG(fi.node)
+    stamps = [n for n in cfg.nodes if isinstance(n.ast, ast.Assign) and len(n.ast.targets) == 1 and isinstance(n.ast.targets[0], ast.Subscript) and isinstance(n.ast.targets[0].slice, ast.Constant) and n.ast.targets[0].slice.value == "line" and isinstance(n.ast.targets[0].value, ast.Name)]
+    producers = [n for n in cfg.nodes if n.ast is not None and n.kind == "stmt" and any(isinstance(c, ast.Call) and isinstance(c.func, ast.Name) and c.func.id == "_match_unicode_identifier" for c in ast.walk(n.ast))]
+    if not stamps or not producers:
+        raise AnalysisError(f"tokenize: position stamping of unpositioned receipts not found (stamps={len(stamps)}, producer calls={len(producers)}); R07.7 is not decided")
+    for st in stamps:
+        var = st.ast.targets[0].value.id  # type: ignore[union-attr]
+        # where the stamped record comes from
+        loop = None
+        cur = getattr(st.ast, "_parent", None)
+        while cur is not None and not isinstance(cur, (ast.FunctionDef, ast.AsyncFunctionDef)):
+            if isinstance(cur, ast.For) and isinstance(cur.target, ast.Name) and cur.target.id == var:
+                loop = cur
+                break
+            cur = getattr(cur, "_parent", None)
+        ok, why = False, ""
+        if loop is not None and isinstance(loop.iter, ast.Subscript) and isinstance(loop.iter.slice, ast.Slice) and loop.iter.slice.upper is None and isinstance(loop.iter.slice.lower, ast.Name):
+            k = loop.iter.slice.lower.id
+            kdefs = [a for a in walk_no_nested(fi.node) if isinstance(a, ast.Assign) and any(isinstance(t, ast.Name) and t.id == k for t in a.targets)]
+            ok = bool(kdefs) and all(isinstance(a.value, ast.Call) and ast.unparse(a.value.func) == "len" for a in kdefs)
+            why = f"the stamping loop covers `{ast.unparse(loop.iter)}`, everything appended since `{k} = len(...)`" if ok else f"`{k}` is not a saved length of the list"
+        elif loop is not None and isinstance(loop.iter, ast.Name):
+            ok, why = True, "the stamping loop walks the whole list"
+        else:
+            # a single record (the newest): nothing may be appended between the producer and the stamp
+            between_append = False
+            for pnode in producers:
+                seen: set[int] = set()
+                stack = [s_ for s_, lab in cfg.succ[pnode.id] if lab != "x"]
+                while stack:
+                    x = stack.pop()
+                    if x in seen or x == st.id:
+                        continue
+                    seen.add(x)
+                    a = cfg.nodes[x].ast
+                    if a is not None and cfg.nodes[x].kind == "stmt" and _reaches_node(cfg, x, st.id):
+                        for c in ast.walk(a):
+                            if isinstance(c, ast.Call) and ((isinstance(c.func, ast.Attribute) and c.func.attr in ("append", "extend", "insert") and ast.unparse(c.func.value) == "repairs") or any(isinstance(g, ast.Name) and g.id == "repairs" for g in c.args)):
+                                between_append = True
+                    stack.extend(s_ for s_, lab in cfg.succ[x] if lab != "x")
+            ok = not between_append
+            why = "only one record is stamped and nothing is appended between the producer and the stamp" if ok else "only the newest record is stamped, but another receipt can be appended between _match_unicode_identifier and the stamp: the unpositioned record is then no longer the newest"
+        run.instance("R07.7", lx.loc(st.ast), f"tokenize: {why}", ok=ok)
+        if not ok:
+            run.violation("R07.7", lx, "tokenize", st.ast, f"{why}; the brace-for-angle receipt keeps line 0 / column 0 and no longer says where the rewrite happened")
+
+
+def _reaches_node(cfg, src: int, dst: int) -> bool:
+    seen = {src}
+    stack = [src]
+    while stack:
+        n = stack.pop()
+        if n == dst:
+            return True
+        for s_, lab in cfg.succ[n]:
+            if lab != "x" and s_ not in seen:
+                seen.add(s_)
+                stack.append(s_)
+    return False
+
+
 def check(run: Run) -> None:
     check_lexer_pairing(run)
     check_bookkeeping(run)
@@ -869,4 +937,5 @@ def check(run: Run) -> None:
     from . import c05 as _c05
 
     _c05.check_prelex_text(run, "R07.6")
+    check_position_stamping(run)
     run.assume("the multiset equality between injected rewrites and receipts on concrete documents (exact original text, line, column of each occurrence) is not decided; only the pairing, bookkeeping and wiring conditions above")
